@@ -380,9 +380,9 @@ func genRedir(r *rand.Rand, classes *[]string, safe bool) string {
 // sinks that stop reading early: the pipeline machinery then tells the
 // producer that its reader is gone.
 var boundedSinks = []string{"nop", "take 3", "take 0", "each {|x| break }"}
-var sinks = []string{"nop", "take 3", "count", "each {|x| }", "put [(all)]", "only-values | count", "slurp | nop (one)", "to-lines", "drop 2 | count", "each {|x| fail z }"}
+var sinks = []string{"nop", "take 3", "count", "each {|x| }", "put [(all)]", "only-values | count", "to-lines", "drop 2 | count", "each {|x| fail z }"}
 var sources = []string{"put a b c", "echo \"l1\\nl2\"", "put [a b] [&k=v]", "range 5", "print \"a\\x00b\\xff\"", "put (num nan) $nil", "nop", "fail x", "put a; echo b; put c",
-	"echo '{\"a\": [1, 2.5, null]}'", "put [1 2] [3 4]", "print 'no newline'", "put b a c", "put (num 3) 1 2/3", "echo \"1\\n2\\n3\"", "put ''", "repeat 40 x", "put $vnull"}
+	"echo '{\"a\": [1, 2.5, null]}'", "put [1 2] [3 4]", "print 'no newline'", "put b a c", "put (num 3) 1 2/3", "echo \"1\\n2\\n3\"", "put ''", "repeat 20 x", "put $vnull"}
 
 func (h *harness) genArgs(r *rand.Rand, fi *fnInfo) (args []val, opts []string) {
 	n := 0
@@ -773,12 +773,17 @@ func (h *harness) judge(c *mon.Case, p program, stdin bool) string {
 	switch {
 	case o.Panic != nil:
 		w["stack"] = o.Stack
+		if strings.Contains(o.PanicSig, "nil pointer dereference") && strings.Contains(lastLine(p.Code), "$nil") {
+			// one root cause (goFn.Call hands $nil to parameters of interface
+			// type), many frames: classed by the input, frame kept
+			o.PanicSig = "panic:nil-argument:" + strings.TrimPrefix(o.PanicSig, "panic:")
+		}
 		c.Violation(o.PanicSig, fmt.Sprintf("Go panic while evaluating %s: %v", mon.Q(lastLine(p.Code)), o.Panic), w)
 		c.Count("outcome_panic", 1)
 		return "panic"
 	case o.HangSig != "":
 		w["goroutines"] = clip(o.HangDump, 6000)
-		c.Violation(o.HangSig, "evaluation is blocked for good: "+mon.Q(lastLine(p.Code)), w)
+		c.Violation(o.HangSig, "evaluation is blocked for good (every goroutine of it waits): "+mon.Q(lastLine(p.Code)), w)
 		c.Count("outcome_hang", 1)
 		return "hang"
 	case o.Abandoned:
@@ -911,6 +916,16 @@ var holeRe = regexp.MustCompile(`[VWXY]`)
 func (h *harness) genLang(r *rand.Rand) program {
 	t := langTemplates[r.Intn(len(langTemplates))]
 	code := holeRe.ReplaceAllStringFunc(t, func(hole string) string {
+		if hole == "W" && (strings.Contains(t, "W>") || strings.Contains(t, "W<")) {
+			// a redirection destination: the port table is indexed by it
+			switch k := r.Intn(10); {
+			case k < 5:
+				return fnPosFds[r.Intn(len(fnPosFds))]
+			case k < 8:
+				return badFds[r.Intn(len(badFds))]
+			}
+			return hugeFds[r.Intn(len(hugeFds))]
+		}
 		switch r.Intn(10) {
 		case 0, 1, 2:
 			if strings.Contains(t, "range") {
@@ -978,7 +993,7 @@ func (h *harness) genPorts(r *rand.Rand) program {
 		code = "put x | " + wr + " >&0"
 	case 5: // a pipeline stage that redirects its own stdin
 		class = "stage-stdin-redirected"
-		code = wr + " | " + rd + " " + []string{"< in", "<&-", "0<&-", "<&2", "< $vnull", "0>> new1", "0<> new1", "< in < f1", "<&0", "< nonexistent"}[r.Intn(10)]
+		code = wr + " | " + rd + " " + []string{"< in", "<&-", "0<&-", "< $vpr", "< $vnull", "0>> new1", "0<> new1", "< in < f1", "<&0", "< nonexistent"}[r.Intn(10)]
 	case 6:
 		class = "stage-stdin-redirected"
 		code = wr + " | { " + rd + " } " + []string{"< in", "<&-", "< $vpr", "0> new1"}[r.Intn(4)] + " | " + sinks[r.Intn(len(sinks))]
@@ -997,6 +1012,62 @@ func runPorts(c *mon.Case) {
 	}
 	if c.I%41 == 0 {
 		c.Sample("ports:"+p.Style, map[string]any{"program": p.Code, "outcome": class})
+	}
+}
+
+// ---------------------------------------------------------------------------
+// phase "corpus": programs that crashed or hung an interpreter at some point
+// (the design-phase candidates and everything the generators found since),
+// plus close variations. They run in every tier, so that a known class is
+// observed (or seen fixed) independently of the seed.
+
+var corpus = []string{
+	"echo a -1>/dev/null", "echo a 1>&-3", "echo a -9223372036854775808>&1", "echo a >&-1", "echo a 9223372036854775807> new1", "echo a 4611686018427387904>&1",
+	"math:pow 0 -1", "math:pow (num 0) (num -3)", "math:pow 0 (num -1/2)", "math:pow (num 0.0) -1", "math:pow 0 -9223372036854775808",
+	"is (styled a red) (styled a red)", "var e = ?(fail x | fail y); is $e[reason] $e[reason]", "var t = (styled a red); is $t $t", "is [&a=(styled a red)] [&a=(styled a red)]", "is ?(fail x)[reason] ?(fail x)[reason]",
+	"read-bytes -1", "read-bytes (num -5) < in", "str:repeat abcd 4611686018427387904", "str:repeat ab 9223372036854775807", "str:repeat '' 9223372036854775807",
+	"run-parallel {|x| }", "run-parallel $nop~ {|x| }", "run-parallel { fail a } {|x| } { put b }",
+	"put a >&0", "put a 1< in", "echo x | put a >&0", "{ put a >&5 } 5< in", "range 3 >&0",
+	"range 5 | nop < in", "range 5 | slurp < in", "put a | nop 0<&-", "put a | { nop } 0>> new1", "echo a | { nop } < in < f1", "put a | nop < nonexistent", "put a | nop < in | nop",
+	"{ only-values <&1 } > new1", "{ only-values <&1 } >&-", "{ each {|x| put $x } <&2 } 2>&-", "count 0>&-", "{ all <&1 } >> new1",
+	"render-styledown (str:join '' [(repeat 31 a)])\"\u597d\\n\"(str:join '' [(repeat 31 ' ')])\"\u597d\\n\"",
+	"put [a b][1..0]", "put 'abc'[1..-9223372036854775808]", "put [a b c][(num 1e18)]", "put (num 1/3)[0]", "put \"a\\xffb\"[1]", "var l = [a b]; set l[2] = c",
+	"printf '%[5]d %[0]d %*d' 3", "order [(num nan) 1 a]", "order &less-than={|a b| put x } [b a]", "order &key={|x| fail k } [b a]", "compare (num nan) (num nan)", "base 1 5", "base 36 -9223372036854775808",
+	"randint 5 1", "randint 9223372036854775807 9223372036854775808", "-randseed 18446744073709551616", "take -1 [a]", "drop -1 [a]", "range 1 10 &step=0 | take 1", "range 0 1 &step=(num 1e-320) | take 2",
+	"from-json < f1", "echo '[1, {\"a\": null}]' | from-json", "put (num nan) | to-json", "to-json [$nop~]", "from-terminated '' < in", "to-terminated \"\\x00\\x00\" [a]", "read-upto '' < in",
+	"flag:parse [-a] [[a]]", "flag:parse-getopt [--=x] [[&short=a]]", "flag:parse-getopt [-a] [[&short=ab]]", "flag:call {|&a=1 &a-b=2| } [--a-b x]", "flag:call $nop~ [a]",
+	"re:replace '(' x y", "re:find 'a{1000}{1000}' a", "re:replace a {|x| put $x $x } aa", "re:replace a {|x| put [$x] } aa", "re:awk {|@a| put $a[5] } < in", "re:split &max=0 a banana",
+	"str:from-codepoints 0x110000", "str:from-utf8-bytes 256", "str:split '' \"\\xff\\xfe\"", "str:replace &max=-5 '' x abc", "str:title \"\\xff\"", "str:index-any abc ''",
+	"file:seek $vclosed 0", "file:seek $vnull -5 &whence=end", "file:truncate f1 -1", "file:close $vclosed", "file:is-tty (num 99999)", "file:is-tty -1", "file:open-output f1 &create-perm=(num -1)",
+	"os:chmod -1 f1", "os:chmod &special-modes=[bogus] 0o644 f1", "os:stat loop", "os:eval-symlinks loop", "os:mkdir-all ''", "os:rename f1 d1", "path:temp-file 'a*b*/c'", "os:temp-dir &dir=nonexistent",
+	"styled a (num 1)", "styled (styled a red) {|s| put x }", "styled-segment [a] &bold", "styled a 'bg-#ggg'", "put (styled abc red)[1..2][0]", "render-styledown \"a\\n\"", "derender-styledown (styled a '#010203')",
+	"md:show &width=-1 '# a'", "doc:show &width=(num 1e18) put", "doc:show ''", "doc:source '$'", "doc:find ''", "wcswidth \"\\xff\"", "-override-wcwidth x -1",
+	"eval 'put $nonexistent'", "eval '{' &on-end=$nop~", "eval &ns=(ns [&a=b]) 'put $a' &on-end={|n| fail e }", "use-mod ./f1", "use-mod ../nonexistent", "call {|a| } [a b] [&]", "call $nop~ [a] [&(num 1)=x]",
+	"peach &num-workers=0 $nop~ [a]", "peach &num-workers=(num -1) $nop~ [a]", "peach &num-workers=(num nan) $nop~ [a]", "put a b | peach {|x| break }", "each {|x| fail $x } [(styled a red)]",
+	"sleep -1", "sleep (num nan)", "sleep '1x'", "time &on-end={|d| fail t } { }", "benchmark &min-runs=-1 { }", "benchmark &min-time=-1s { }", "benchmark &min-runs=0 &min-time=0s { fail b }",
+	"defer { }", "{ defer { fail d }; fail b }", "return", "break | continue", "fail ?(fail x)", "fail $nil", "fail [&]", "show ?(fail \"\\xff\")", "show $nil", "show ?(fail x | fail y)",
+	"ns [&(num 1)=x]", "ns [&'a:b'=x]", "make-map [[a]]", "make-map [a]", "assoc [a] 5 x", "assoc abc 0 x", "dissoc [a] 0", "keys (num 1)", "has-value $nil a", "conj $nil a", "count $nop~",
+	"cd nonexistent", "cd f1", "tilde-abbr \"\\xff\"", "set-env '' x", "set-env 'a=b' x", "unset-env ''", "get-env \"a\\x00b\"", "has-external ''", "search-external ''", "external '' | nop", "(external '')", "e:nonexistent-cmd",
+	"resolve ''", "resolve 'a b'", "-log ''", "-log d1", "src", "-stack | nop", "-ifaddrs | nop", "edit:key \"\\xff\"", "edit:key 'Ctrl-Alt-Shift-'", "edit:binding-table [&a=b]", "edit:complex-candidate [a]",
+	"edit:complete-getopt [a] [[&short=ab]] []", "edit:complete-getopt [-] [[&long='']] [$nop~]", "edit:complete-getopt [''] [[&short=a &arg-required=$true &arg-optional=$true]] [...]", "edit:wordify \"a\\xff {\"",
+	"edit:match-subseq \"\\xff\" [a]", "put a \"\\xff\" | edit:match-subseq \"\\xffx\"", "edit:complete-filename", "edit:complete-filename a \"\\xff\"", "edit:complete-sudo sudo", "edit:command-history &cmd-only &dedup &newest-first",
+	"range 4000 | only-values | nop", "to-lines [(range 30000)] | only-bytes | nop", "range 4000 | only-values | take 1",
+	"conj $nil a", "each $nil [a]", "keep-if $nil [a]", "time $nil", "benchmark &min-time=0s $nil", "call $nil [] [&]", "call $nop~ $nil [&]", "call $nop~ [] $nil", "ns $nil", "show $nil",
+	"peach $nil [a]", "run-parallel $nil", "edit:add-vars $nil", "edit:del-vars $nil", "edit:binding-table $nil", "re:awk $nil < in", "flag:call $nil []",
+	"file:is-tty -1", "file:is-tty -9223372036854775808", "file:is-tty 9223372036854775807",
+	"store:cmd -1", "store:cmd 9223372036854775807", "store:cmds -5 5", "store:cmds 5 -5", "store:del-cmd 0", "store:next-cmd -1 ''", "store:prev-cmd 9223372036854775807 \"\\xff\"", "store:add-dir ''", "store:del-dir nonexistent",
+}
+
+func runCorpus(c *mon.Case) {
+	code := corpus[c.I%len(corpus)]
+	p := program{Code: assemble(code, ""), Fn: "(corpus)", Style: "corpus"}
+	class := h.judge(c, p, false)
+	c.Count("corpus_programs", 1)
+	if class == "ok" || strings.HasPrefix(class, "exc:") {
+		c.Nontrivial(p.Code)
+	}
+	if c.I%37 == 0 {
+		c.Sample("corpus", map[string]any{"program": p.Code, "outcome": class})
 	}
 }
 
@@ -1027,6 +1098,7 @@ func Spec() *mon.Spec {
 			"Resource policy of the property (memory/time exhaustion is not a crash): numeric arguments that only scale memory or time are capped for read-bytes, repeat, range, str:repeat, math:pow (exponent), sleep and benchmark (min-time/min-runs); " +
 				"redirection destinations between 4097 and 2^60 are not generated (the port table is a slice indexed by fd; such a program dies by memory exhaustion, observed as 'fatal error: out of memory' for 99999999999>f). Evaluations that are still running when given up are counted inconclusive.",
 			"Reading values from a *live* output channel (0<&1 while port 1 is a terminal/capture/pipe port) waits for the writer by design and is not generated; reading from a pipe whose write end stays open is not generated either. Reading from a port that has no value channel at all (closed with >&- or redirected to a file) is generated: it must not block for good.",
+			"A producer that emits more values than the (unspecified) channel buffer into a consumer that reads only bytes waits for that consumer, which waits for the producer's end of file (language.md, Pipeline: 'Elvish may have internal buffering ... The exact buffer size is not specified'): such program-level deadlocks (repeat 40 x | slurp) are not generated, and an evaluation goroutine that waits in a read is never counted as a hang.",
 			"A hang verdict needs either a goroutine of the evaluation in a state that can never be left (nil-channel operation) or two identical goroutine snapshots with no runnable Elvish goroutine and the evaluation goroutine waiting on a channel or lock (not on I/O).",
 			"All programs of a child process share process-global state (cwd, environment, umask, wcwidth overrides, random seed); the work directory and the environment are rebuilt before every program.",
 		},
@@ -1034,6 +1106,7 @@ func Spec() *mon.Spec {
 		ChildSetup:    childSetup,
 		ParentSetup:   parentSetup,
 		Phases: []mon.Phase{
+			{Name: "corpus", Quick: len(corpus), Thorough: len(corpus), Run: runCorpus, Timeout: 60 * time.Second},
 			{Name: "calls", Quick: scale(30000), Thorough: scale(600000), Run: runCalls, Timeout: 60 * time.Second},
 			{Name: "redir", Quick: scale(6000), Thorough: scale(100000), Run: runRedir, Timeout: 60 * time.Second},
 			{Name: "lang", Quick: scale(8000), Thorough: scale(150000), Run: runLang, Timeout: 60 * time.Second},
